@@ -20,16 +20,19 @@ NLines == Len(Tr)
 VARIABLES sh, l
 LT == INSTANCE LineTrace
 NoReq == << >>
-\* instants are milliseconds relative to the origin of the harness run; MIT reported epoch milliseconds
-TF(x, t) == [startOK |-> x.case.start = "absent" \/ x.conc.start - t <= x.conc.skew,
-             endOK   |-> t - x.conc.end <= x.conc.skew,
-             skewOK  |-> x.conc.ctime - t <= x.conc.skew /\ t - x.conc.ctime <= x.conc.skew]
-Acc(x, t) == Accept(x.case, x.settings, TF(x, t), FALSE)
-\* Kerberos times have a resolution of one second (MIT compares whole seconds): the verdict is required only when it is the same
-\* over the whole interval from one second before to one second after MIT's call
-LineOK(x) == LET t0 == x.t0 - x.origin - 1000  t1 == x.t1 - x.origin + 1000  tm == (t0 + t1) \div 2 IN
-             /\ (Acc(x, t0) /\ Acc(x, tm) /\ Acc(x, t1)) => x.rc = 0
-             /\ (~Acc(x, t0) /\ ~Acc(x, tm) /\ ~Acc(x, t1)) => x.rc # 0
+\* instants are milliseconds relative to the origin of the harness run; MIT reported epoch milliseconds.
+\* Kerberos times have a resolution of one second and MIT compares whole seconds, each time field on its own: a bound that is within
+\* 1.5 s of being met or missed may go either way, independently for the ticket's start, its end and the authenticator's time.  So the
+\* verdict is required only when it is the same with every time bound tightened by 1.5 s (then MIT must accept what Accept accepts)
+\* and with every bound relaxed by 1.5 s (then MIT must refuse what Accept still refuses).
+TFs(x, t, sk) == [startOK |-> x.case.start = "absent" \/ x.conc.start - t <= sk,
+                  endOK   |-> t - x.conc.end <= sk,
+                  skewOK  |-> x.conc.ctime - t <= sk /\ t - x.conc.ctime <= sk]
+AccWith(x, t, sk) == Accept(x.case, x.settings, TFs(x, t, sk), FALSE)
+Slack == 1500
+LineOK(x) == LET t0 == x.t0 - x.origin  t1 == x.t1 - x.origin IN
+             /\ (AccWith(x, t0, x.conc.skew - Slack) /\ AccWith(x, t1, x.conc.skew - Slack)) => x.rc = 0
+             /\ (~AccWith(x, t0, x.conc.skew + Slack) /\ ~AccWith(x, t1, x.conc.skew + Slack)) => x.rc # 0
 TInit == LT!Init /\ Init
 TNext == LT!Next /\ UNCHANGED vars
 Check == ~LT!Active \/ LineOK(Tr[l]) \/ PrintT(<<"BADLINE", l>>)
